@@ -858,8 +858,9 @@ Proof.
   - (* LAutoDelete *)
     destruct (autodel s) as [|qn rest]; [exact H|].
     assert (H0 : IV (s <| autodel := rest |>)) by (eapply IV_same; [| |exact H]; reflexivity).
-    pose proof (IV_vhost_delete_queue (negb (fx_delete_checks_first fx)) _ qn false false H0) as Hd.
-    destruct (vhost_delete_queue _ (s <| autodel := rest |>) qn false false) as [[s1 e1] r1]. exact Hd.
+    destruct (get_queue _ qn) as [qu0|]; [|exact H0]. destruct (q_autodel qu0); [|exact H0].
+    pose proof (IV_vhost_delete_queue (negb (fx_delete_checks_first fx)) _ qn true false H0) as Hd.
+    destruct (vhost_delete_queue _ (s <| autodel := rest |>) qn true false) as [[s1 e1] r1]. exact Hd.
   - (* LPersistTick *)
     cbn [fst]. apply fold_left_preserves.
     + intros s0 k H0. eapply IV_same; [apply queues_store_confirm|apply conns_store_confirm|exact H0].
